@@ -10,7 +10,7 @@ import numpy as np
 ID = "C09"
 PROPS_FILE = "theories/Props/C09.v"
 EXTRACT = ("theories/Extract/XC09.v", "c09",
-           ["entry_run", "entry_spec_run", "entry_abs_run", "entry_run_abs", "entry_models", "entry_alg"])
+           ["entry_run", "entry_spec_run", "entry_abs_run", "entry_run_abs", "entry_run_lite", "entry_models", "entry_alg"])
 PYX = {}
 CASE_TIMEOUT = 60
 TOL = 1e-9
@@ -541,7 +541,40 @@ def _corpus():
     return cases
 
 
+def _long_history(rng, nframes, nfeat, model, custom=None):
+    """the same few tracks kept (and permuted) through every frame: no age cap.  Replayed through the
+    noise_var-free model (kalman_filter_lite); noise_var is checked against the implementation's own rows"""
+    c = _history(rng, nfeat, 1, 2, model, custom=custom)
+    c["frames"][0] = _frame_like2(rng, c, [-1] * nfeat, "long")
+    for _ in range(nframes - 1):
+        u = rng.rand()
+        old = list(range(nfeat))
+        if u < 0.3:
+            old = old[::-1]
+        elif u < 0.6:
+            k = int(rng.randint(nfeat))
+            old = old[k:] + old[:k]
+        elif u < 0.8:
+            rng.shuffle(old)
+        c["frames"].append(_frame_like2(rng, c, [int(x) for x in old], "long"))
+    c["long"] = True
+    return c
+
+
+def _frame_like2(rng, case, old, kind):
+    om, _tm = _case_mats(case)
+    ol, sl = len(om), len(om[0])
+    n = len(old)
+    return {"old": old, "coords": (rng.randint(-40, 41, size=(n, ol)) / 2.0).tolist(),
+            "q": [_spd(rng, sl, 2).tolist() for _ in range(n)], "r": [_spd(rng, ol, 2).tolist() for _ in range(n)],
+            "kind": kind}
+
+
 def _count(ctx, c):
+    if c["fn"] == "kalman" and c.get("long"):
+        ctx.count("long_track_cases")
+        ctx.count("long_track_frames", len(c["frames"]))
+        ctx.count("long_track_feature_steps_beyond_cap", sum(len(f["old"]) for f in c["frames"][9:]))
     if c["fn"] == "kalman":
         ctx.count("kalman_" + (c.get("custom") or c["model"]))
         for f in c["frames"]:
@@ -601,6 +634,17 @@ def generate(ctx):
     for maxf, nfr, model, surv in big:
         while True:
             c = _history(rng, maxf, nfr, 1, model, variants=True, survive=surv, same_q=rng.rand() < 0.3)
+            if _cond_ok(c):
+                break
+            ctx.count("excluded_ill_conditioned")
+        cases.append(c)
+    # long single tracks (no age cap): exact state_vec / state_cov / corrections through the noise_var-free model
+    longs = [(20, 1, "static", None), (14, 2, "velocity", None)] if ctx.quick() else \
+            [(40, 1, "velocity", None), (40, 2, "static", None), (40, 1, "reverse_velocity", None), (40, 3, "static", None),
+             (30, 2, "velocity", None), (40, 1, "custom", "cv1d"), (25, 2, "custom", "scaled")]
+    for nfr, nfeat, model, custom in longs:
+        while True:
+            c = _long_history(rng, nfr, nfeat, model if model != "custom" else "static", custom=custom)
             if _cond_ok(c):
                 break
             ctx.count("excluded_ill_conditioned")
@@ -699,6 +743,8 @@ def _call(F, ks, f, watch):
         "shapes": [list(np.asarray(getattr(ks2, a)).shape) for a in
                    ("state_vec", "state_cov", "noise_var", "state_noise", "state_noise_idx")],
         "dtypes": [str(np.asarray(getattr(ks2, a)).dtype) for a in ("state_vec", "state_cov", "noise_var", "state_noise")],
+        "psv": np.asarray(ks2.predicted_state_vec).tolist(), "pov": np.asarray(ks2.predicted_obs_vec).tolist(),
+        "pred_cached": [bool(ks2.has_cached_predicted_state_vec), bool(ks2.has_cached_obs_vec)],
         "same_object": ks2 is ks, "unmodified": bool(unmodified), "other_state_changed": bool(leak),
         "om_tm_kept": bool(np.array_equal(ks2.observation_matrix, ks.observation_matrix)
                            and np.array_equal(ks2.translation_matrix, ks.translation_matrix))}
@@ -736,6 +782,11 @@ def _impl_alg(F, case):
 
 def _head(ks):
     return {"om": np.asarray(ks.observation_matrix).tolist(), "tm": np.asarray(ks.translation_matrix).tolist(),
+            "fresh": {"shapes": [list(np.asarray(getattr(ks, a)).shape) for a in
+                                 ("state_vec", "state_cov", "noise_var", "state_noise", "state_noise_idx")],
+                      "idx_int": bool(np.issubdtype(np.asarray(ks.state_noise_idx).dtype, np.integer)),
+                      "state_len": int(ks.state_len), "obs_len": int(ks.obs_len),
+                      "cached": [bool(ks.has_cached_predicted_state_vec), bool(ks.has_cached_obs_vec)]},
             "frames": []}
 
 
@@ -839,23 +890,40 @@ def _par(ctx, entry, args, workers=None):
 _run_cache = {}
 
 
-def _run_abs(ctx, args):
-    """entry_run_abs on [H, A, frames] arguments, memoised for the life of the process: the batched model's
-    states and (by C09_fresh_refines_trace) the per-feature specification come out of one evaluation"""
-    keys = [json.dumps(a, separators=(",", ":")) for a in args]
+def _run_abs(ctx, args, lites=None):
+    """entry_run_abs (or, for long tracks, entry_run_lite) on [H, A, frames] arguments, memoised for the life of the
+    process: the batched model's states and (by C09_fresh_refines_trace) the per-feature specification come out of
+    one evaluation.  Returns per history None-or-error, or {"states", "abs", "psv", "pov"} (lists per frame)."""
+    lites = lites or [False] * len(args)
+    keys = [("L" if l else "F") + json.dumps(a, separators=(",", ":")) for a, l in zip(args, lites)]
     todo = {}
-    for k, a in zip(keys, args):
+    for k, a, l in zip(keys, args, lites):
         if k not in _run_cache and k not in todo:
-            todo[k] = a
-    if todo:
-        ks = list(todo)
-        for k, r in zip(ks, _par(ctx, "entry_run_abs", [todo[k] for k in ks])):
-            _run_cache[k] = r
-        if len(_run_cache) > 6000:
-            for k in list(_run_cache)[:len(_run_cache) - 6000]:
-                if k not in keys:
-                    del _run_cache[k]
+            todo[k] = (a, l)
+    for lite, entry in ((False, "entry_run_abs"), (True, "entry_run_lite")):
+        ks = [k for k in todo if todo[k][1] == lite]
+        if ks:
+            for k, r in zip(ks, _par(ctx, entry, [todo[k][0] for k in ks])):
+                _run_cache[k] = _unpack(r, lite)
+    if len(_run_cache) > 6000:
+        for k in list(_run_cache)[:len(_run_cache) - 6000]:
+            if k not in keys:
+                del _run_cache[k]
     return [_run_cache[k] for k in keys]
+
+
+def _unpack(r, lite):
+    if isinstance(r, dict) or r == []:
+        return {"error": r}
+    frames = r[0]
+    if not lite:
+        return {"states": [st[0] for st in frames], "abs": [st[1] for st in frames],
+                "psv": [st[2] for st in frames], "pov": [st[3] for st in frames]}
+    states, absf = [], []
+    for sv, sc, sn, si, _p, _o in frames:
+        states.append([sv, sc, None, sn, si])
+        absf.append([[sv[k], sc[k], None, [row for i, row in zip(si, sn) if i == k]] for k in range(len(sv))])
+    return {"states": states, "abs": absf, "psv": [st[4] for st in frames], "pov": [st[5] for st in frames]}
 
 
 _models_cache = {}
@@ -954,9 +1022,8 @@ def model(ctx, cases, outs):
     for k, j, c, _o in flat:
         H, A = _mats_sx(ctx, c, False)
         args.append([H, A, _frames_sx(c)])
-    for (k, j, c, _o), a, r in zip(flat, args, _run_abs(ctx, args)):
-        run = r if (isinstance(r, dict) or r == []) else [[st[0] for st in r[0]]]
-        m = {"run": run, "om": a[0], "tm": a[1]}
+    for (k, j, c, _o), a, r in zip(flat, args, _run_abs(ctx, args, [bool(x[2].get("long")) for x in flat])):
+        m = dict(r, om=a[0], tm=a[1])
         if j is None:
             res[k] = m
         else:
@@ -999,22 +1066,25 @@ def compare(case, out, m):
 
 
 def _compare_kalman(case, out, m):
-    if isinstance(m["run"], dict) or m["run"] == []:
-        return "model rejected the history: %s" % (m["run"],)
+    if "error" in m:
+        return "model rejected the history: %s" % (m["error"],)
     if _qm(out["om"]) != m["om"] or _qm(out["tm"]) != m["tm"]:
         return "model matrices of %s differ from the translated source" % case["model"]
-    trace = m["run"][0]
+    trace = m["states"]
     if len(trace) != len(out["frames"]):
         return "number of frames differs"
     for t, (fo, ms) in enumerate(zip(out["frames"], trace)):
         msv, msc, mnv, msn, msi = ms
         if fo["sidx"] != msi:
             return "frame %d: state_noise_idx impl %s model %s" % (t, fo["sidx"][:40], msi[:40])
-        if len(fo["svec"]) != len(msv) or len(fo["scov"]) != len(msc) or len(fo["nvar"]) != len(mnv) \
-                or len(fo["snoise"]) != len(msn):
+        if len(fo["svec"]) != len(msv) or len(fo["scov"]) != len(msc) or (mnv is not None and len(fo["nvar"]) != len(mnv)) \
+                or len(fo["snoise"]) != len(msn) or len(fo["psv"]) != len(m["psv"][t]) or len(fo["pov"]) != len(m["pov"][t]):
             return "frame %d: array lengths differ" % t
         for name, x, mm in (("state_vec", fo["svec"], msv), ("state_cov", fo["scov"], msc),
-                            ("noise_var", fo["nvar"], mnv), ("state_noise", fo["snoise"], msn)):
+                            ("noise_var", fo["nvar"], mnv), ("state_noise", fo["snoise"], msn),
+                            ("predicted_state_vec", fo["psv"], m["psv"][t]), ("predicted_obs_vec", fo["pov"], m["pov"][t])):
+            if mm is None:
+                continue            # long tracks: noise_var is checked against the implementation's own rows
             for k, (a, b) in enumerate(zip(x, mm)):
                 d = _cmp_arr(a, b)
                 if d:
@@ -1031,11 +1101,16 @@ def _check_kalman(case, out, spec):
         return "%s model matrices are not the documented ones" % (case.get("custom") or case["model"])
     if len(out["frames"]) != len(case["frames"]):
         return "harness error: %d outputs for %d frames" % (len(out["frames"]), len(case["frames"]))
-    if isinstance(spec, dict) or spec == []:
-        return "specification rejected the history (harness error): %s" % (spec,)
+    if "error" in spec:
+        return "specification rejected the history (harness error): %s" % (spec["error"],)
+    ol = len(om)
+    fresh = out.get("fresh")
+    if fresh != {"shapes": [[0, len(om[0])], [0, len(om[0]), len(om[0])], [0, len(om[0])], [0, len(om[0])], [0]],
+                 "idx_int": True, "state_len": len(om[0]), "obs_len": ol, "cached": [False, False]}:
+        return "the initial KalmanState is not the documented empty state: %s" % (fresh,)
     sl = len(om[0])
     prev_hist = []
-    for t, (f, fo, st) in enumerate(zip(case["frames"], out["frames"], spec[0])):
+    for t, (f, fo, st) in enumerate(zip(case["frames"], out["frames"], spec["abs"])):
         n = len(f["old"])
         if not fo["unmodified"]:
             return "frame %d: kalman_filter modified its input state or arguments" % t
@@ -1051,6 +1126,12 @@ def _check_kalman(case, out, spec):
             return "frame %d: output shapes %s for %d features" % (t, fo["shapes"], n)
         if len(st) != n:
             return "frame %d: harness error, specification has %d features" % (t, len(st))
+        if fo["pred_cached"] != [True, True] or len(fo["psv"]) != n or len(fo["pov"]) != n:
+            return "frame %d: predicted_state_vec / predicted_obs_vec not available per feature" % t
+        for k in range(n):
+            d = _cmp_arr(fo["psv"][k], spec["psv"][t][k]) or _cmp_arr(fo["pov"][k], spec["pov"][t][k])
+            if d:
+                return "frame %d feature %d: predicted state/observation is not A x / H A x of its own state: %s" % (t, k, d)
         if any(not (0 <= i < n) for i in fo["sidx"]):
             return "frame %d: state_noise_idx out of range" % t
         hist = [[row for i, row in zip(fo["sidx"], fo["snoise"]) if i == k] for k in range(n)]
@@ -1064,7 +1145,7 @@ def _check_kalman(case, out, spec):
                     return "frame %d feature %d (%s): initial state is not the observed coordinates" % (t, k, what)
                 if _qm(fo["scov"][k]) != sx_P:
                     return "frame %d feature %d (%s): initial covariance is not diag(SMALL.., LARGE..)" % (t, k, what)
-                if _qv(fo["nvar"][k]) != sx_nv:
+                if _qv(fo["nvar"][k]) != (sx_nv if sx_nv is not None else [[1, 1]] * sl):
                     return "frame %d feature %d (%s): initial noise variance is not all ones" % (t, k, what)
                 if hist[k]:
                     return "frame %d feature %d (%s): inherits %d corrections of another feature" % (t, k, what, len(hist[k]))
@@ -1083,7 +1164,7 @@ def _check_kalman(case, out, spec):
             d = _cmp_arr(hist[k], sx_h)
             if d:
                 return "frame %d feature %d (%s): correction history differs from its own corrections: %s" % (t, k, what, d)
-            d = _cmp_arr(fo["nvar"][k], sx_nv)
+            d = _cmp_arr(fo["nvar"][k], sx_nv) if sx_nv is not None else None
             if d:
                 return "frame %d feature %d (%s): noise variance is not the variance of its own corrections: %s" % (t, k, what, d)
             # and directly on the implementation's own rows
@@ -1109,15 +1190,14 @@ def check(ctx, cases, outs):
     for k, j, c, _o in flat:
         H, A = _mats_sx(ctx, c, True)
         args.append([H, A, _frames_sx(c)])
-    specs = []
-    for r in _run_abs(ctx, args):
-        specs.append(r if (isinstance(r, dict) or r == []) else [[st[1] for st in r[0]]])
+    lites = [bool(x[2].get("long")) for x in flat]
+    specs = _run_abs(ctx, args, lites)
     # the abstraction of the batched run IS the per-feature specification (theorem); re-checked at run time
     # against the separately extracted specification on a sub-sample
-    sub = [i for i in range(len(flat)) if i % 8 == 0 and _cost(args[i]) < 3e5][:40]
+    sub = [i for i in range(len(flat)) if i % 8 == 0 and not lites[i] and _cost(args[i]) < 3e5][:40]
     if sub:
         for i, r in zip(sub, _par(ctx, "entry_spec_run", [args[i] for i in sub])):
-            if r != specs[i]:
+            if "error" in specs[i] or r == [] or isinstance(r, dict) or r[0] != specs[i]["abs"]:
                 raise RuntimeError("extracted entry_spec_run differs from abs(entry_run) on case %d" % flat[i][0])
     for (k, j, c, o), r in zip(flat, specs):
         if res[k] is None:
